@@ -119,14 +119,14 @@ theorem quietRun_mono (k : Kind) (a : Auto G σ) {P P' Q Q' : G → Exc → Prop
     refine ⟨quietStep_mono k a hP hQ st op g h.1, ?_⟩
     exact ih _ _ h.2
 
-theorem exit_none (env : Env) (cfg : Cfg) (d : Bool) (g : G) : exit env cfg d none g = (.propagate, g) :=
+theorem exit_none (env : Env) (cfg : Cfg) (d : Nat) (g : G) : exit env cfg d none g = (.propagate, g) :=
   exitN_none 1 env cfg d g
 
-theorem exit_uncaught (env : Env) (cfg : Cfg) (d : Bool) (e : Exc) (g : G) (h : Uncaught cfg g e) :
+theorem exit_uncaught (env : Env) (cfg : Cfg) (d : Nat) (e : Exc) (g : G) (h : Uncaught cfg g e) :
     exit env cfg d (some e) g = (.propagate, g) :=
   exitN_uncaught 1 env cfg d e g h
 
-theorem exit_caught (env : Env) (cfg : Cfg) (d : Bool) (e : Exc) (g : G) (h : Caught cfg g e) :
+theorem exit_caught (env : Env) (cfg : Cfg) (d : Nat) (e : Exc) (g : G) (h : Caught cfg g e) :
     exit env cfg d (some e) g = caughtResult env cfg d e g :=
   exitN_caught 1 env cfg d e g h
 
